@@ -12,9 +12,8 @@ META = dict(
                "with the node/edge sign convention, and establishes the invariant), C11_duplicate_index_err (error, state unchanged), C11_remove_index, "
                "C11_index_search_exact (an AIndex search for K,V returns, as a multiset, exactly the existing elements whose value of K equals V), "
                "C11_index_listing_exact (SelectIndexes reports per key the number of existing elements having it). "
-               "History-level statements (over exec, including element removal with cascade) are listed in coq/Props/C11.v with their exact status (names ending in _partial are conditional "
-               "on the graph-layer interface; preservation across rollback is not proved). "
-               "The model is tied to /repo on every run by executing generated index histories (indexed / non-indexed keys, replacements, cascaded edge removal, index create/remove at "
+               "HISTORY LEVEL (PARTIAL, conditional): C11_transaction_partial and C11_history_partial show that the joint invariant Inv (graph well-formed [C08] + alias map one-to-one on existing nodes + no duplicate keys + exact indexes) is kept by every mutating query whatever its outcome, at every state inside a running transaction, and after every history from the empty database in which no query fails; they assume `traversal_live rv_fixed` (breadth/depth-first and path searches return only existing elements; index searches and element scans are discharged) and do not cover the state after the rollback of a failing query (needs C13). "
+                              "The model is tied to /repo on every run by executing generated index histories (indexed / non-indexed keys, replacements, cascaded edge removal, index create/remove at "
                "arbitrary points, failing transactions) on the real database and on the extracted model and comparing every query result and periodic full dumps.",
     design_ref="DESIGN.md §5 C11",
     level_note="Trusted: Coq kernel, extraction (ExtrOcamlBasic), OCaml driver, Rust harness/generators. Theorems are about the model (theories/DbModel.v etc.); "
